@@ -556,6 +556,15 @@ def build_cases(tr, mism, points, mcov):
             else:
                 d2 = d
             cases.append((s, "default%d" % j, d2, q))
+    # a result of more than 255 identifiers (and with it a large index and token) for every scheme: counts and lengths that
+    # no longer fit one byte
+    for s in sc.SCHEMES:
+        d = sc.default_config(s)
+        if s == "CGKO06.SSE1":
+            d = dict(d, param_s=512, param_dictionary_size=64)
+        elif s == "CGKO06.SSE2":
+            d = dict(d, param_dictionary_size=64)
+        cases.append((s, "bigresult", d, [300, 1]))
     mcov["model"]["MC_Profiles_runs"] = runs
     return cases
 
